@@ -912,7 +912,9 @@ impl<'source> CodeGenerator<'source> {
         match c.identify_call() {
             ast::CallType::Function(name) => {
                 let arg_count = self.compile_call_args(&c.args, 0, caller);
-                self.add(Instruction::CallFunction(name, arg_count));
+                // the arguments (and the body of a call block) can end on a later
+                // line: the call itself is where the call starts.
+                self.add_with_span(Instruction::CallFunction(name, arg_count), c.span());
             }
             #[cfg(feature = "multi_template")]
             ast::CallType::Block(name) => {
@@ -923,12 +925,12 @@ impl<'source> CodeGenerator<'source> {
             ast::CallType::Method(expr, name) => {
                 self.compile_expr(expr);
                 let arg_count = self.compile_call_args(&c.args, 1, caller);
-                self.add(Instruction::CallMethod(name, arg_count));
+                self.add_with_span(Instruction::CallMethod(name, arg_count), c.span());
             }
             ast::CallType::Object(expr) => {
                 self.compile_expr(expr);
                 let arg_count = self.compile_call_args(&c.args, 1, caller);
-                self.add(Instruction::CallObject(arg_count));
+                self.add_with_span(Instruction::CallObject(arg_count), c.span());
             }
         };
         self.pop_span();
